@@ -1,6 +1,7 @@
 import RpmVerif.Driver.Common
 import RpmVerif.Driver.Hash
 import RpmVerif.Model.Verify
+import RpmVerif.Model.Sign
 import RpmVerif.Spec.Verify
 import RpmVerif.Spec.Digest
 /-! Driver for C02.
@@ -18,6 +19,17 @@ Ops
                           `Props/C02.lean`): a hand-made package whose only signature covers the EMPTY message must give an
                           error (`verify=ok` → `fails:unsigned-header-accepted`); one whose signature covers the header: `ok`.
 
+* `sigpkts KEY LABEL KIDS PKTTABLE B64TABLE BLOB BYTES` — gap G3, `Verifier::parse_signature`: a hand-made package whose signature blob
+                          is a SEQUENCE of OpenPGP packets. Observation `keyids=… verify=ok|err build=267|268|none|err`
+                          (`signature_key_ids()`, `verify_signature(Verifier of KEY)`, the legacy tag
+                          `SignatureHeaderBuilder::build` files BLOB under). The `pgp` crate enters as the model's abstract
+                          per-packet parser: PKTTABLE says, for every single packet, `N` (not a signature) or
+                          `S/<issuers>/<pub alg>/<bit per key of KEY's certificate: accepts it over the header>`, KIDS the key ids
+                          of the certificate (primary, subkeys). The model frames every blob itself (`Pgp.splitPackets`), picks the
+                          first packet the table calls a signature (`Pgp.parseSignature`) and runs `keyIds` / `verifySignatureS` with
+                          `pgpVerifierVerifyP` as the verifier / `builderTag` on top of that. Spec: `verify=ok` needs a signature
+                          packet in the table that some key of the certificate accepts (`fails:unsigned-header-accepted`).
+
 Model observation: `verifySignatureS` with the driver's own hash functions, the table as `b64` and the pattern as a
 (history-dependent) verifier. For the real-key ops the driver cannot run OpenPGP: it predicts `verify=err` whenever the
 modification changes the parsed header bytes or content (digest route; under the SigScheme hypothesis otherwise),
@@ -33,7 +45,7 @@ Spec verdict (on the IMPLEMENTATION's observation):
 namespace RpmVerif.Driver.C02
 open RpmVerif.Hdr RpmVerif.Driver RpmVerif.Verify RpmVerif.Gen
 
-def ops : List String := ["vsig", "vorig", "vflip", "vedit", "vobs"]
+def ops : List String := ["vsig", "vorig", "vflip", "vedit", "vobs", "sigpkts"]
 
 def realH : DigestSpec.Hashes := ⟨Hash.md5L, Hash.sha1L, Hash.sha256L⟩
 
@@ -167,9 +179,101 @@ def judgeEdit (tag : String) (orig edited : Bytes) (pos : Nat) (impl : String) :
       else answer m "dontcare" branch
   | _ => badReq "orig-does-not-parse"
 
+/-! ### `sigpkts`: `Verifier::parse_signature` on blobs of several packets -/
+
+/-- what the `pgp` crate's parser made of one packet that it returned as a signature -/
+structure PktInfo where
+  /-- `issuer()`: raw 8-byte key ids -/
+  issuers : List Bytes
+  /-- `u8::from(config.pub_alg)` -/
+  alg : Nat
+  /-- one bit per key of the verifier's certificate (primary, subkeys…): `signature.verify(key, header bytes).is_ok()` -/
+  bits : List Bool
+
+/-- `packet=N` / `packet=S/<id+id|->/<alg>/<bits>`, comma separated (`-` = no packets) -/
+def parsePktTable (s : String) : Option (List (Bytes × Option PktInfo)) :=
+  if s == "-" then some [] else
+  (s.splitOn ",").mapM fun pair =>
+    match pair.splitOn "=" with
+    | [t, d] => do
+      let t ← hexDot t
+      if d == "N" then pure (t, none) else
+      match d.splitOn "/" with
+      | ["S", iss, alg, bits] => do
+        let ids ← if iss == "-" then some [] else (iss.splitOn "+").mapM fun h => bytesOfHexAux h.toList []
+        let a ← alg.toNat?
+        pure (t, some ⟨ids, a, bits.toList.map (· == '1')⟩)
+      | _ => none
+    | _ => none
+
+def natOfBytes (bs : Bytes) : Nat := bs.foldl (fun n b => n * 256 + b.toNat) 0
+
+/-- key ids as the lower-case hex text the library prints -/
+def hexText (bs : Bytes) : Bytes := (hexOfBytes bs).toUTF8.toList
+
+def textOf (bs : Bytes) : String := (String.fromUTF8? (ByteArray.mk bs.toArray)).getD "?"
+
+def idsStr : Out (List Bytes) → String
+  | .ok [] => "none"
+  | .ok l => "+".intercalate (l.map textOf)
+  | _ => "err"
+
+def handleSigpkts (label kidsS pktS b64S blobS hb impl : String) : String :=
+  match parsePktTable pktS, parseTable b64S, bytesOfHex blobS, bytesOfHex hb with
+  | some ptbl, some btbl, some blob, some bs =>
+    match parsePackage bs with
+    | .err c => answer "parse-err" "dontcare" ("sigpkts-parse-err-" ++ c)
+    | .panic s => answer "panic" "dontcare" ("sigpkts-parse-panic-" ++ s)
+    | .ok p =>
+      let kids : List Bytes := if kidsS == "-" then [] else (kidsS.splitOn ",").filterMap fun h => bytesOfHexAux h.toList []
+      let texts := match getStringArray p.md.signature SigTag.RPMSIGTAG_OPENPGP with | .ok l => l | _ => []
+      if texts.any (fun t => (btbl.lookup t).isNone) then badReq "b64-table" else
+      let b64 : Bytes → Option Bytes := fun t => (btbl.lookup t).getD none
+      -- every blob the model will frame: each packet it finds must be in the table (the parser is a parameter)
+      let legacyBlobs := [SigTag.RPMSIGTAG_RSA, SigTag.RPMSIGTAG_DSA, SigTag.RPMSIGTAG_PGP].filterMap fun t =>
+        (getBinary p.md.signature t).toOption
+      let blobs := blob :: (texts.filterMap b64 ++ legacyBlobs)
+      let missing := blobs.any fun b => match Pgp.splitPackets b with
+        | some ps => ps.any fun q => (ptbl.lookup q).isNone
+        | none => false
+      if missing then badReq "pkt-table" else
+      let parsePkt : Bytes → Option PktInfo := fun q => (ptbl.lookup q).getD none
+      let hdr := writeHeader p.md.header
+      let E : PgpPkt Nat PktInfo :=
+        { kid := fun i => natOfBytes (kids.getD i []), parsePkt := parsePkt, issuers := fun s => s.issuers.map natOfBytes,
+          early := fun _ _ => false, check := fun k d s => d == hdr && s.bits.getD k false }
+      let ring : KeyRing Nat := ⟨0, (List.range kids.length).drop 1⟩
+      let v : Verifier := fun _ d sig => (pgpVerifierVerifyP E ring d sig).1.isOk
+      let r := verifySignatureS realH.md5 realH.sha1 realH.sha256 b64 v p
+      let PP : Sign.PktParser := ⟨PktInfo, parsePkt, fun s => s.issuers.map hexText, fun s => s.alg⟩
+      let S : Sign.SigScheme :=
+        Sign.SigScheme.withParser
+          { Key := Unit, decEq := inferInstance, sign := fun _ _ _ => [], verify := fun _ _ _ => false, issuer := fun _ => none,
+            keyId := fun _ => [], legacyTag := fun _ => 0, b64enc := id, b64dec := b64 } PP
+      let ids := idsStr (Sign.keyIds S p)
+      let ver := match r.1 with | .ok _ => "ok" | _ => "err"
+      let build := match Sign.builderTag PP blob with | .ok t => toString t | _ => "err"
+      let m := s!"keyids={ids} verify={ver} build={build}"
+      let cls := match r.1 with | .ok _ => "ok" | .err c => c | .panic _ => "panic"
+      -- which packet of BLOB the model takes for THE signature
+      let pcls := match Pgp.splitPackets blob with
+        | none => "framing-broken"
+        | some ps => match ps.findIdx? (fun q => (parsePkt q).isSome) with
+          | some i => s!"sig#{i + 1}of{ps.length}"
+          | none => s!"no-sig-in-{ps.length}"
+      let branch := s!"sigpkts-{label}:{pcls}:{cls}"
+      -- spec: success needs a signature packet (as framed from the request) that some key of the certificate accepts
+      let someAccepted := ptbl.any fun e => match e.2 with | some i => i.bits.any id | none => false
+      let implOk := (impl.splitOn " ").contains "verify=ok"
+      if impl == "parse-err" || impl == "panic" then answer m "dontcare" branch
+      else if implOk && !someAccepted then answer m "fails:unsigned-header-accepted" branch
+      else answer m "holds" branch
+  | _, _, _, _ => badReq "args"
+
 def handle (op : String) (args : List String) (impl : String) : String :=
   match op, args with
   | "vsig", [pat, table, hb] => handleVsig pat table hb impl
+  | "sigpkts", [_, label, kids, ptbl, btbl, blob, hb] => handleSigpkts label kids ptbl btbl blob hb impl
   | "vorig", [_, hb] =>
     -- hypothesis of the model (SigScheme: a signature verifies over the message it was made for); no verdict
     match bytesOfHex hb with
